@@ -35,8 +35,29 @@ func networkRoots(w *World, r *Run, rule string) []*ssa.Function {
 	add(fnDistOnce)
 	add(fnCGetLatest)
 	add("(" + pCHTTP + ".Witness).Update")
-	add(fnHGetCP)
-	add(fnHGetLogs)
+	// the read API's handlers: by name, or — when they were reshaped into functions or closures — whatever in the package
+	// takes an http.ResponseWriter
+	if w.fn(fnHGetCP) != nil && w.fn(fnHGetLogs) != nil {
+		add(fnHGetCP)
+		add(fnHGetLogs)
+	} else {
+		n := 0
+		for _, fn := range w.prodFns() {
+			if pkgPathOf(fn) != pIHTTP || fn.Synthetic != "" {
+				continue
+			}
+			for _, p := range fn.Params {
+				if typeStr(p.Type()) == "http.ResponseWriter" {
+					roots = append(roots, fn)
+					n++
+					break
+				}
+			}
+		}
+		if n < 2 {
+			r.Undecided(rule, fnHGetCP, "", "network-input root not found")
+		}
+	}
 	add(fnUpdate)
 	add(fnGetCheckpoint)
 	// the fetch closures of the five feeders (they parse log responses) and everything in internal/client
